@@ -173,6 +173,34 @@ Definition grammar_boxed (box_only_if_needed : bool) (g : ogrammar) : list (N * 
 Definition grammar_no_update (g : ogrammar) : bool :=
   last_round_made_no_update (grammar_ws g) (grammar_cm g) (brules_of g).
 
+(* the same for the un-optimized AST (graph/rule.rs:523-559, used with `pest_optimizer = false`) *)
+Fixpoint mentioned_raw (e : rexpr) : list N :=
+  match e with
+  | RStr _ | RInsens _ | RRange _ _ => []
+  | RIdent i => [ident_code i]
+  | RPeekSlice _ _ => []
+  | RPosPred e | RNegPred e => mentioned_raw e
+  | RSeq a b | RChoice a b => mentioned_raw a ++ mentioned_raw b
+  | ROpt e | RRep e | RRepOnce e => mentioned_raw e
+  | RRepExact e _ | RRepMin e _ | RRepMax e _ => mentioned_raw e
+  | RRepMinMax e _ _ => mentioned_raw e
+  | RSkip _ => []
+  | RPush e => mentioned_raw e
+  end.
+
+Definition brule_of_raw (r : rrule) : brule :=
+  mk_brule (code_rule (rr_name r)) (rr_kind r) (mentioned_raw (rr_expr r)).
+
+Definition brules_of_raw (g : rgrammar) : list brule := map brule_of_raw (rg_rules g).
+
+Definition grammar_boxed_raw (box_only_if_needed : bool) (g : rgrammar) : list (N * bool) :=
+  combine (map rr_name (rg_rules g))
+          (boxed_flags box_only_if_needed (option_map code_rule (rg_ws g)) (option_map code_rule (rg_comment g))
+                       (brules_of_raw g)).
+
+Definition grammar_no_update_raw (g : rgrammar) : bool :=
+  last_round_made_no_update (option_map code_rule (rg_ws g)) (option_map code_rule (rg_comment g)) (brules_of_raw g).
+
 (* ---- the mention graph (vocabulary of the statements) ---------------------- *)
 (* x mentions y: some rule named x has y among the names collect_used_rule inserts *)
 Definition mention_edge (ws cm : option N) (rules : list brule) (x y : N) : Prop :=
